@@ -138,6 +138,53 @@ def check_steppers(seeds):
     return out
 
 
+def check_observers(seeds):
+    """A component that owns no variable and whose action is a state invariant: `step` must return an empty
+    assignment where the invariant holds and raise ValueError where it does not."""
+    import omega.steps as steps
+    import omega.symbolic.temporal as trl
+    out = []
+    for seed in seeds:
+        rnd = random.Random(seed)
+        aut = trl.Automaton()
+        aut.declare_variables(x=(0, 3), y=(-2, 1), b='bool')
+        aut.varlist = dict(env=['x', 'y', 'b'], sys=[], impl=[])
+        aut.prime_varlists()
+        inv = rnd.choice([f'x + y <= {rnd.randint(-1, 4)}', f'(x = {rnd.randint(0, 3)}) \\/ b', f'b => (y < {rnd.randint(-1, 1)})',
+                          f'(x # {rnd.randint(0, 3)}) /\\ (y >= {rnd.randint(-2, 0)})'])
+        aut.action['impl'] = inv
+        aut.init['impl'] = 'TRUE'
+        st = steps.AutomatonStepper(aut)
+        name = f'observer #{seed} invariant {inv}'
+        problems = []
+        n = 0
+        for xv in range(0, 4):
+            for yv in range(-4, 4):
+                for bv_ in (False, True):
+                    state = dict(x=xv, y=yv, b=bv_)
+                    n += 1
+                    want = aut.let(state, aut.action['impl']) == aut.true
+                    try:
+                        r = st.step(dict(state))
+                        got = True
+                    except ValueError:
+                        got, r = False, None
+                    except Exception as e:  # noqa
+                        problems.append(f'step raised {type(e).__name__} at {state}')
+                        continue
+                    if got != want:
+                        problems.append(f'at {state} the invariant is {want} but step ' + ('returned ' + str(r) if got else 'raised ValueError'))
+                    elif got and r != {}:
+                        problems.append(f'at {state} step returned {r} for a component without variables')
+        sample = dict(invariant=inv, states=n)
+        if problems:
+            out.append(core.res(name, 'violation', sample=sample, nontrivial=True, functions=FUNCS, signature='stepper:observer',
+                                detail=f'{problems[0]} ({len(problems)} problem(s))', cex=dict(kind='observer', seed=seed)))
+        else:
+            out.append(core.res(name, 'holds', sample=sample, nontrivial=True, functions=FUNCS, extra=dict(states=n)))
+    return out
+
+
 def check_assemblies(seeds, steps_n):
     """Environment stepper + Moore implementation stepper, named so that names could clash."""
     import z3
@@ -234,7 +281,9 @@ def replay(payload):
     if c['kind'] == 'crosshair':
         from vlib import chrun
         return chrun.replay_call(c['module'], c['func'], c['args'])
-    if c['kind'] == 'stepper':
+    if c['kind'] == 'observer':
+        r = check_observers([c['seed']])
+    elif c['kind'] == 'stepper':
         r = check_steppers([c['seed']])
     else:
         r = check_assemblies([c['seed']], c.get('steps', 12))
@@ -255,6 +304,8 @@ def run(tier, seed, t0, only=None):
                           name=f'steppers[{i}]'))
         tasks.append(dict(mod='vlib.props.c19', fn='check_assemblies', kw=dict(seeds=seeds[i:i + 6], steps_n=12 if tier == 'quick' else 40),
                           timeout=1800, name=f'assemblies[{i}]'))
+    tasks.append(dict(mod='vlib.props.c19', fn='check_observers', kw=dict(seeds=seeds[:24 if tier == 'quick' else 200]),
+                      timeout=1800, name='observers[0]'))
     if only:
         tasks = [t for t in tasks if only in t['name']]
     results = core.run_tasks(tasks)
